@@ -10,6 +10,10 @@ CHECKS = {
             "Every ordered pair of every lattice family (all 10 types + Geometry enum, all representation variants) is enumerated and relate() is compared cell-by-cell with an exact rational reference; the bound is the lattice size/vertex count stated in the evidence. Small-scope: every coincidence class named by the property has a witness inside the bound.",
             "Trusted: the harness's exact kernel (cross-checked against the repository's JTS relate cases in the oracle-selfcheck stage); inputs outside the integer lattice alphabet are not covered.",
             "DESIGN.md §4 C01"),
+    "C02": ("E1-grid", "bounded exhaustive enumeration of input pairs and query coordinates vs masks on the exact reference DE-9IM and exact point location",
+            "Every concrete Intersects/Contains/Within impl (100 ordered type pairs each, plus Coord operands, Intersects also for i64) is called on every ordered pair of the lattice families and compared with the documented mask applied to the exact reference matrix; coordinate_position of every shape (f64 and i64) at every half-step lattice point is compared with exact point location.",
+            "Trusted: exact kernel; the masks are evaluated on the reference matrix, so C02 does not inherit relate's answers. One known finding (MultiLineString::coordinate_position at an even shared endpoint) is listed in known_findings.json.",
+            "DESIGN.md §4 C02"),
 }
 
 NOT_YET = "check not built yet in this round (planned: bounded exhaustive exploration, see DESIGN.md §4)"
